@@ -138,6 +138,7 @@ func (ex *Exec) runVC() {
 	ex.entry = g.entryState()
 	ex.declareParams()
 	loops, back := findLoops(fn)
+	ex.loops = loops
 	order := topoOrder(fn, back)
 
 	// assume preconditions
@@ -477,17 +478,43 @@ func (ex *Exec) loopEnv(st *State, hdr *ssa.BasicBlock, phi map[*ssa.Phi]string,
 			}
 		}
 	}
-	for _, ri := range ex.ranges {
-		if ri.isMap && li.body[ri.r.Block()] == false {
-			// range instruction is outside (before) the loop it feeds: the loop whose header contains its Next
-			for _, in := range hdr.Instrs {
-				if nx, ok := in.(*ssa.Next); ok && nx.Iter == ri.r {
+	// #visited: keys already produced by the range-over-map loop whose `next` sits in this header;
+	// #outer_visited: the same for the innermost ENCLOSING range-over-map loop (stable inside this loop).
+	visitedOf := func(h *ssa.BasicBlock) (Val, bool) {
+		for _, in := range h.Instrs {
+			if nx, ok := in.(*ssa.Next); ok {
+				if ri := ex.ranges[nx.Iter]; ri != nil && ri.isMap {
 					kt := GType{T: ri.mt.Key()}
 					if v, ok := st.locals[ri.visited]; ok {
-						vars["#visited"] = Val{v, GType{Set: &kt}}
+						return Val{v, GType{Set: &kt}}, true
 					}
 				}
 			}
+		}
+		return Val{}, false
+	}
+	own, hasOwn := visitedOf(hdr)
+	if hasOwn {
+		vars["#visited"] = own
+	}
+	// enclosing loops, innermost first (smallest body containing this header)
+	var best *loopInfo
+	for _, l := range ex.loops {
+		if l == li || !l.body[hdr] {
+			continue
+		}
+		if _, ok := visitedOf(l.header); !ok {
+			continue
+		}
+		if best == nil || len(l.body) < len(best.body) {
+			best = l
+		}
+	}
+	if best != nil {
+		v, _ := visitedOf(best.header)
+		vars["#outer_visited"] = v
+		if !hasOwn {
+			vars["#visited"] = v
 		}
 	}
 	return env.with(vars)
